@@ -218,11 +218,11 @@ func evalParse(st *stats, s string) {
 	}
 	h := fnv.New64a()
 	h.Write([]byte{byte(m.V), m.Form, byte(m.Reg), '|'})
-	h.Write([]byte(shape(m.P.Registry, 4)))
+	h.Write([]byte(shape(m.P.Registry, 2)))
 	h.Write([]byte{'|'})
-	h.Write([]byte(shape(m.P.Repository, 4)))
+	h.Write([]byte(shape(m.P.Repository, 3)))
 	h.Write([]byte{'|'})
-	h.Write([]byte(shape(m.P.Reference, 4)))
+	h.Write([]byte(shape(m.P.Reference, 3)))
 	k := h.Sum64() | 1
 	st.keys[k] = st.keys[k] || nt
 	switch {
@@ -520,7 +520,7 @@ func main() {
 		"(4) seeded random references with boundary-length components and 0–3 character mutations, (5) seeded Repository bases × reference forms through Repository.ParseReference, " +
 		"(6) the same through Resolve / FetchReference / Tag / PushReference / blob and descriptor operations on a recording RoundTripper. " +
 		"Every string is parsed by the library and by an independent recogniser; accepted results are compared part by part and formatted and re-parsed. " +
-		"distinct = hash(verdict, form, registry class, run-collapsed character-class shapes of registry, repository and reference (first 4 classes each)) for strings, " +
+		"distinct = hash(verdict, form, registry class, run-collapsed character-class shapes of registry, repository and reference (first 2, 3 and 3 classes)) for strings, " +
 		"hash(operation set, reference form, scheme, registry class, repository segments, reference shape) for URL cases; " +
 		"non-trivial = string with a '/' that is judged and either accepted or rejected with exactly one invalid component (near miss); URL case non-trivial = at least one request was issued for an accepted reference")
 	r.Assume("acceptance is not judged for strings ending in a bare ':' or '@' whose lenient reading is acceptable, for paths with several '@' whose last one starts a digest, and for registries outside {DNS labels, IPv4, bracketed IPv6} with optional port 0–65535 that are not surely invalid (net/url decides those); parts and round trip are still checked whenever the library accepts")
